@@ -54,6 +54,36 @@ def grid(rng):
     return float(rng.randint(1, 4096)) / 64
 
 
+def other_unit(label, pos):
+    """a different unit of the same nutrient with the same monthly suffix"""
+    sfx = ""
+    for t in (" each month", " per month"):
+        if label.endswith(t):
+            label, sfx = label[: -len(t)], t
+            break
+    swaps = [{"billion kcals": "million dry caloric tons"}, {"thousand tons": "million tons", "million tons": "thousand tons"},
+             {"thousand tons": "million tons", "million tons": "thousand tons"}]
+    return swaps[pos].get(label, "thousand tons" if pos else "billion kcals") + sfx
+
+
+def mutation_through_alias(z, x, y, bx, by):
+    """the result shares storage with an operand: can a later Food operation on the RESULT change the operand?
+    try every in-place operation of Food on the result and look at the operands afterwards"""
+    tried = []
+    for name, fn in (("set_to_zero_after_month(0)", lambda: z.set_to_zero_after_month(0)),
+                     ("__setitem__(0, Food(7, 7, 7))", lambda: z.__setitem__(0, Food(7.0, 7.0, 7.0))),
+                     ("__setitem__(slice, Food(7, 7, 7))", lambda: z.__setitem__(slice(None), Food(7.0, 7.0, 7.0)))):
+        try:
+            with quiet():
+                fn()
+            tried.append(name + ": accepted")
+        except BaseException as e:
+            tried.append(name + ": " + classify(e))
+        if snapshot(x) != bx or snapshot(y) != by:
+            return name, tried
+    return None, tried
+
+
 def operand(spec, x, rng):
     """build the second operand of a binary operation"""
     kind = spec["kind"]
@@ -74,6 +104,12 @@ def operand(spec, x, rng):
         if mon:
             return [np.array([one(i, w) for i in range(n)], dtype=float) for w in range(3)]
         return [one(0, w) for w in range(3)]
+    if kind == "like_one_off":  # same shape; the labels differ from the current food's in exactly ONE position
+        k, f, p = vals()
+        labs = [x.kcals_units, x.fat_units, x.protein_units]
+        pos = spec["pos"]
+        labs[pos] = other_unit(labs[pos], pos)
+        return Food(k, f, p, *labs)
     if kind == "like":          # same shape, same labels as the current food
         near = (x.kcals, x.fat, x.protein) if spec.get("near") else None
         k, f, p = vals(spec.get("nonzero", False), near)
@@ -261,6 +297,11 @@ def run_seq(seq, rng):
         res["steps"].append(r)
         if z is None:
             break
+        if r["alias"] and not st["op"].startswith("set_"):
+            how, tried = mutation_through_alias(z, x, y, bx, by)
+            r["alias_mutation"] = how
+            r["alias_tried"] = tried
+            break               # the result may have been mutated by the probe: the history ends here
         x = z
     return res
 
